@@ -297,3 +297,81 @@ Example C20_skip_all_example :
   skip_all_elements 1 true 0 [10; 3; 172; 2; 5; 16; 1] = Some (2, 5) /\
   skip_all_elements 11 false 2 [90; 1; 97; 90; 0; 16; 1] = Some (2, 5).
 Proof. repeat split; vm_compute; reflexivity. Qed.
+
+(* ================================================================== LIST / MAP descriptor at the top, map types, non-canonical input *)
+From DG Require Import ProtoAnyMoreProofs.
+
+(* T1-T3 for WriteAnyWithDesc / ReadAnyWithDesc called on the TypeDescriptor of a repeated or map field (check 2013) *)
+Theorem C20_write_any_top :
+  forall S cast disallow byname junk n lbl t needlen v fuel,
+  (9 <= length junk)%nat -> names_hyp S byname -> lbl <> ProtoMsg.LSingular ->
+  1 <= n <= ProtoMsg.MAX_FIELD_NUMBER -> ProtoMsg.wf_fld S lbl t v = true -> strs_ok v = true -> sizes_ok v = true ->
+  (ProtoMsg.depth v < fuel)%nat ->
+  write_any_desc S cast disallow byname junk true fuel n lbl t needlen (gval_of S byname false t v)
+  = (ProtoMsg.encode_msg [(n, v)], 0).
+Proof. exact write_any_top. Qed.
+Print Assumptions C20_write_any_top.
+
+Theorem C20_read_any_top :
+  forall S disallow byname n lbl t haslen v fuel,
+  names_hyp S byname -> lbl <> ProtoMsg.LSingular ->
+  1 <= n <= ProtoMsg.MAX_FIELD_NUMBER -> ProtoMsg.wf_fld S lbl t v = true -> sizes_ok v = true -> (ProtoMsg.depth v < fuel)%nat ->
+  read_any_desc S disallow byname fuel lbl t haslen (ProtoMsg.encode_msg [(n, v)]) = Some (gval_of S byname true t v, []).
+Proof. exact read_any_top. Qed.
+Print Assumptions C20_read_any_top.
+
+Theorem C20_read_write_any_top :
+  forall S cast dis_w dis_r byname junk n lbl t nl hl v fuel,
+  (9 <= length junk)%nat -> (byname = true -> names_okb S = true) -> lbl <> ProtoMsg.LSingular ->
+  1 <= n <= ProtoMsg.MAX_FIELD_NUMBER -> ProtoMsg.wf_fld S lbl t v = true -> strs_ok v = true -> sizes_ok v = true ->
+  (ProtoMsg.depth v < fuel)%nat ->
+  exists bytes,
+    write_any_desc S cast dis_w byname junk true fuel n lbl t nl (gval_of S byname false t v) = (bytes, 0) /\
+    read_any_desc S dis_r byname fuel lbl t hl bytes = Some (gval_of S byname true t v, []) /\
+    (no_empty v = true -> gval_of S byname true t v = gval_of S byname false t v).
+Proof. exact read_write_any_top. Qed.
+Print Assumptions C20_read_write_any_top.
+
+(* map[string]interface{} and map[interface{}]interface{} with string keys are written to the same bytes *)
+Theorem C20_write_map_strkeys_same :
+  forall S cast dis bn junk fx f n t b es,
+  write_map junk (write_base S cast dis bn junk fx (Datatypes.S f)) n 9 t b (GMapS es) =
+  write_map junk (write_base S cast dis bn junk fx (Datatypes.S f)) n 9 t b (GMapA (map (fun e => (GStr (fst e), snd e)) es)).
+Proof. exact write_map_strkeys_same. Qed.
+Print Assumptions C20_write_map_strkeys_same.
+
+(* the reader on valid NON-canonical input: "whatever the proved reference decoder reads as m, the reader answers gtop m" is
+   FALSE for the code as written (witnesses: ProtoAnyMoreProofs.refuted_packed_arrives_unpacked, refuted_unpacked_arrives_packed,
+   refuted_split_run, refuted_bool_varint; replayed on the implementation by check 2010, drift 8) ... *)
+Theorem C20_read_any_refines_decode_general_refuted :
+  ~ (forall S name bs m disallow byname fuel, ProtoMsg.decode_top S name bs = Some m -> (length bs < fuel)%nat ->
+       read_any_desc S disallow byname fuel ProtoMsg.LSingular (ProtoMsg.TMsg name) false bs = Some (gtop S byname true name m, [])).
+Proof. exact read_any_refines_decode_general_refuted. Qed.
+Print Assumptions C20_read_any_refines_decode_general_refuted.
+
+(* ... and TRUE for the fields in any order with unknown fields of every wire type anywhere in between *)
+Theorem C20_read_any_refines_decode_general_partial :
+  forall S byname name md its fuel,
+  names_hyp S byname -> ProtoMsg.find_msg S name = Some md ->
+  ProtoMsg.wf_msg S name (known_fields its) = true -> sizes_ok (ProtoMsg.VMsg (known_fields its)) = true ->
+  Forall (unk_ok md) its -> (ProtoMsg.depth (ProtoMsg.VMsg (known_fields its)) < fuel)%nat ->
+  ProtoMsg.decode_msg S fuel name (ProtoMsg.wenc (items_wire its)) = Some (known_fields its) /\
+  read_any_desc S false byname fuel ProtoMsg.LSingular (ProtoMsg.TMsg name) false (ProtoMsg.wenc (items_wire its))
+  = Some (gtop S byname true name (known_fields its), []).
+Proof. exact read_any_refines_decode_unknowns. Qed.
+Print Assumptions C20_read_any_refines_decode_general_partial.
+
+Example C20_general_partial_example :
+  let its := [IUnk (9, ProtoMsg.WVarint 1); IKnown 2 (ProtoMsg.VScalar 5 7); IUnk (10, ProtoMsg.WBytes [1; 2]);
+              IKnown 1 (ProtoMsg.VList true [ProtoMsg.VScalar 5 1; ProtoMsg.VScalar 5 2]); IUnk (9, ProtoMsg.WFix32 5)] in
+  Forall (unk_ok (ProtoMsg.mk_mdesc [77] (ProtoMsg.md_fields (hd (ProtoMsg.mk_mdesc [] []) rx_schema)))) its /\
+  ProtoMsg.wf_msg rx_schema [77] (known_fields its) = true /\
+  read_any_desc rx_schema false false 9 ProtoMsg.LSingular (ProtoMsg.TMsg [77]) false (ProtoMsg.wenc (items_wire its))
+  = Some (GMsgN [(2, GInt GT_I32 7); (1, GList [GInt GT_I32 1; GInt GT_I32 2])], []).
+Proof. cbv zeta. split; [repeat constructor|]. split; vm_compute; reflexivity. Qed.
+
+Example C20_top_list_example :
+  write_any_desc rx_schema false false false (repeat 0 9) true 3 4 (ProtoMsg.LRepeated false) (ProtoMsg.TScalar 5) false
+                 (GList [GInt GT_I32 1; GInt GT_I32 (-1)]) = ([32; 1; 32; 255; 255; 255; 255; 255; 255; 255; 255; 255; 1], 0) /\
+  write_scalar true 13 [] (GF64 4616189618054758400) = ([4], 0) /\ write_scalar true 1 [] (GInt GT_I64 3) = ([0; 0; 0; 0; 0; 0; 8; 64], 0).
+Proof. repeat split; vm_compute; reflexivity. Qed.
